@@ -101,6 +101,7 @@ func (ex *Exec) havoc(st *State, comps []string, tag string) {
 		st.heap[c] = nh
 		if ax := ex.closureAxiom(c, nh, st.alloc); ax != True {
 			ex.assume(ax)
+			ex.markLow(ax)
 		}
 	}
 }
@@ -801,7 +802,12 @@ func (ex *Exec) applyContract(con *Contract, cname string, names []string, typs 
 				if err != nil {
 					ex.fail("contract of %s: modifies set: %v", cname, err)
 				}
-				ex.assume(Implies(reach, Forall([]*Term{q}, Implies(notIn, Eq(Select(after, q), Select(before, q))))))
+				if after.S.B.K == KArr {
+					k2 := Const("mk?"+c, after.S.B.A)
+					ex.assume(Implies(reach, Forall([]*Term{q, k2}, Implies(notIn, Eq(Select(Select(after, q), k2), Select(Select(before, q), k2))))))
+				} else {
+					ex.assume(Implies(reach, Forall([]*Term{q}, Implies(notIn, Eq(Select(after, q), Select(before, q))))))
+				}
 			}
 		}
 	}
@@ -1051,7 +1057,7 @@ func (ex *Exec) builtin(fr *Frame, x *ssa.Call, name string, args []*Val, st *St
 		inNew := And(Eq(b, rb), Le(Add(ro, dl), i), Lt(i, Add(Add(ro, dl), sl)))
 		inCopied := And(Not(inPlace), Eq(b, fb), Le(IntLit(0), i), Lt(i, dl))
 		val := Ite(inNew, Select(Select(h, sb), Add(so, Sub(i, Add(ro, dl)))),
-			Ite(inCopied, Select(Select(h, db), Add(do, i)), old))
+			Ite(inCopied, Select(Select(h, db), At(do, i)), old))
 		ex.assume(Implies(reach, Forall([]*Term{b, i}, Eq(Select(Select(nh, b), i), val))))
 		ex.heapSet(st, comp, nh)
 		return &Val{T: MkSlice(rb, ro, newLen, rc)}
